@@ -113,7 +113,7 @@ func RunC03(c *Ctx) error {
 				}
 				s := gr.Derive(r.Fork("s"), budget)
 				useTok := !drv.HasLexer || r.Chance(1, 5)
-				job := harness.Job{ID: len(jobs), Kind: "c03", Variant: v.Name, Knob: stackKnobs[r.Intn(len(stackKnobs))],
+				job := harness.Job{ID: len(jobs), Kind: "c03", Variant: v.Name, Knob: stackKnobs[r.Intn(len(stackKnobs))], Reuse: si%2 == 1,
 					In: toInput(s, useTok, "valid"), ExpectLog: s.Log, ExpectResult: s.Result}
 				n := len(s.Log)
 				if n <= maxFaults {
